@@ -7,7 +7,7 @@ namespace sim {
 
 std::vector<u32> g_default_report_cps;
 
-static bool is_content_kind(const std::string &k) { return k == "BITROT" || k == "TRUNCATE" || k == "TORN" || k == "SETBYTES" || k == "REFETCH_DIFFERS"; }
+static bool is_content_kind(const std::string &k) { return k == "BITROT" || k == "TRUNCATE" || k == "TORN" || k == "SETBYTES" || k == "CODEROT" || k == "LOOPROT" || k == "REFETCH_DIFFERS"; }
 static bool is_file_fn(const std::string &t) { return t == "fopen" || t == "fseek" || t == "ftell" || t == "fread"; }
 
 void quiescence_check(const std::string &prop) {
